@@ -163,7 +163,17 @@ func init() {
 				return io // "the value returned by the device is the value loaded or stored"
 			}
 			return bus
-		}, false, false)
+		}, true, false)
+		// "during one Step": the Step around executeOne adds no access of its own
+		// (no request / refused request), and acceptance makes exactly its stack and
+		// vector accesses
+		var cs []stepCase
+		for _, sc := range stepCases(false) {
+			if sc.name != "other" && sc.name != "IM0/empty" {
+				cs = append(cs, sc)
+			}
+		}
+		r.checkFn(ld, "z80.(*CPU).Step", cs, bus, false, false, "cpu.Step()")
 	}
 	checks["C09"] = func(ld *Loaded, r *Run) {
 		r.verifyHelpers(ld, nil)
@@ -245,6 +255,11 @@ func init() {
 		bios := map[uint8]bool{0xc3: true, 0x79: true, 0xfe: true, 0x28: true, 0x76: true, 0x7b: true, 0xd3: true, 0xc9: true, 0x1a: true, 0xc8: true, 0x13: true, 0x18: true, 0xcd: true}
 		r.checkArms(ld, filterEnc(func(e Encoding) bool { return e.Table == "" && bios[e.Op] }), nil, true, true)
 		r.checkLemmas(ld, "C18")
+		// "a jump to address 0 ends the run": Run's contract (stops at the HALT,
+		// discards a stale halted indication on entry) - with the Step frame it needs
+		r.establishStepFrame(ld)
+		r.verifyHelpers(ld, func(c *Contract) bool { return c.Key == "z80.(*CPU).Run" })
+		r.structural(ld, "Run/halt/returns", ld.runHaltReturns(), "")
 		r.Assumptions["C18: io.Writer.Write(p) appends all of p to the console stream; (*log.Logger).Printf only logs (stubs)"] = true
 		r.Assumptions["C18: the whole-string statement for BDOS function 9 follows from the per-iteration lemmas by induction over the string length (meta-level); program, string and stack lie outside the BIOS pages 0x0000-0x0007, 0xFE06-0xFE1C, 0xFF03"] = true
 	}
